@@ -214,6 +214,10 @@ impl KeyValueStore {
             let (imm, imm_log, imm_path, imm_trigger) = {
                 let mut state = self.state.lock().unwrap();
                 while state.imm_trigger < state.mem_seq_no {
+                    #[cfg(rescrv_blue_verif)]
+                    if crate::verif::return_when_idle() {
+                        return Ok(());
+                    }
                     state = self.cnd_needs_memtable_flush.wait(state).unwrap();
                 }
                 let imm = Arc::clone(&state.mem);
@@ -278,6 +282,10 @@ impl KeyValueStore {
             state.imm = None;
             state.imm_trigger = imm_trigger;
             self.cnd_memtable_rolled_over.notify_all();
+            #[cfg(rescrv_blue_verif)]
+            if crate::verif::return_after_step() {
+                return Ok(());
+            }
         }
     }
 
@@ -417,5 +425,36 @@ impl KeyValueStore {
         let cursor = PruningCursor::new(cursor, timestamp)?;
         let cursor = BoundsCursor::new(cursor, start_bound, end_bound)?;
         Ok(cursor)
+    }
+}
+
+#[cfg(rescrv_blue_verif)]
+impl KeyValueStore {
+    /// Wake every thread parked on one of the store's condition variables so that it can observe
+    /// a stop request made through [crate::verif::request_stop].
+    pub fn verif_wake_all(&self) {
+        {
+            let _state = self.state.lock().unwrap();
+            self.cnd_needs_memtable_flush.notify_all();
+            self.cnd_memtable_rolled_over.notify_all();
+        }
+        self.tree.verif_wake_all();
+    }
+
+    /// Read-only access to the tree for observation.
+    pub fn verif_tree(&self) -> &LsmTree {
+        &self.tree
+    }
+
+    /// (has immutable memtable, memtable approximate size, imm_trigger, mem_seq_no, seq_no)
+    pub fn verif_mem_state(&self) -> (bool, usize, u64, u64, u64) {
+        let state = self.state.lock().unwrap();
+        (
+            state.imm.is_some(),
+            state.mem.approximate_size(),
+            state.imm_trigger,
+            state.mem_seq_no,
+            state.seq_no,
+        )
     }
 }
